@@ -27,7 +27,7 @@ MANIFEST = {
 
 REQUIRED = ["KV.C17.sem_accounting", "KV.C17.never_over_cap", "KV.C17.fifo_exactly_once",
             "KV.C17.per_pair_order", "KV.C17.no_deadlock", "KV.C17.terminates", "KV.C17.maximal_run_delivers",
-            "KV.C17.pool_exactly_once", "KV.C17.chain_ring", "KV.C17.pcqueue_refines_fifo",
+            "KV.C17.pool_exactly_once", "KV.C17.pool_join_each_deadlocks", "KV.C17.chain_ring", "KV.C17.pcqueue_refines_fifo",
             "KV.C17.wait_eintr_transparent", "KV.C17.stream_records",
             "KV.C17.steplevel_refines_atomic", "KV.C17.pool_exactly_once_steplevel",
             "KV.C17.chain_stream_transducer", "KV.C17.chain_ring_steplevel",
@@ -356,18 +356,26 @@ def op_batch(ctx, hexe, dexe, kind, cases, mkline, oracle):
     lines = [mkline(c) for c in cases]
     ho = run_harness(hexe, lines)
     rc2, do, e2 = stream.run_lines(dexe, lines, timeout=900)
+    disagree = None
     for i, c in enumerate(cases):
         ctx.count((kind, lines[i]), nontrivial=True)
         bad = oracle(c, ho[i])
         if bad:
             ctx.violation("%s: %s" % (kind, bad), {"stream": kind, "op": lines[i], "impl": ho[i][:3000],
-                                                   "model": do[i][:3000] if i < len(do) else None})
+                                                   "model": do[i][:3000] if i < len(do) else None,
+                                                   "first_disagreement": lines[disagree] if disagree is not None else None})
             return True
-        if i >= len(do) or ho[i] != do[i]:
-            ctx.violation("%s: model and implementation disagree on a driven schedule" % kind,
-                          {"stream": kind, "op": lines[i], "impl": ho[i][:3000], "model": do[i][:3000] if i < len(do) else None},
-                          no_input=True)
-            return True
+        if disagree is None and (i >= len(do) or ho[i] != do[i]):
+            # broken correspondence: keep scanning the rest of the batch with the model-independent property oracle
+            # (the failing-input search); only if no schedule of the batch violates the property is it reported without input
+            disagree = i
+    if disagree is not None:
+        i = disagree
+        ctx.violation("%s: model and implementation disagree on a driven schedule" % kind,
+                      {"stream": kind, "op": lines[i], "impl": ho[i][:3000], "model": do[i][:3000] if i < len(do) else None,
+                       "searched": "%d driven schedules of this batch with the property oracle" % len(cases)},
+                      no_input=True)
+        return True
     return False
 
 
